@@ -190,6 +190,21 @@ def run(model, col, tier):
                 for what in ("Functions", "Globals"):
                     if f".{what}" in src_:
                         merged[what] = st_.targets[0].value.attr
+    # ... for every module that is added (linked or loaded for an import): the merge loops sit on every returning path
+    for what in ("Functions", "Globals"):
+        if what not in merged:
+            continue
+        skipping = []
+        for evs, status in paths(addm.body, loop_iters=(0, 1)):
+            if status == "raise":
+                continue
+            if not any(e.kind == "loop" and isinstance(e.node, ast.For) and f".{what}" in unparse(e.node.iter) for e in evs):
+                from ..paths import cond_atoms as _ca163
+
+                skipping.append([(k[:40], v) for k, v in _ca163(evs).items()][:3])
+        col.check(not skipping, "R16.3", f"{IR}::Linker.AddModule merges module.{what} unconditionally", f"the merge of module.{what} is on every returning path",
+                  f"under {skipping[0] if skipping else ''} AddModule returns without entering the module's {what}: modules added that way (e.g. those loaded for an import) "
+                  f"contribute no {what.lower()} to the program, so the VM has no slot for them", IR, addm)
     for what in ("Functions", "Globals"):
         col.check(what in merged, "R16.3", f"{IR}::Linker.AddModule merges module.{what}", f"every entry of module.{what} is entered into the linker's table",
                   f"AddModule does not enter the module's {what} into the linker's table: {what.lower()} of a linked or imported module are missing from the program", IR, addm)
@@ -342,6 +357,9 @@ def run(model, col, tier):
                     and x.func.attr in ("pop", "clear", "update", "setdefault", "popitem"):
                 writers.append((rel, x))
     col.floor("R16.8", "writers of Module.Metadata", len(writers), 2)
+    from . import c10 as _c10
+
+    _c10.check_exported_unique(model, col, "R16.4")
     for rel, x in writers:
         col.check(rel == "nsl/passes/LowerToIR.py", "R16.8", f"{rel}:: writes Module.Metadata only while lowering", "the interface of a module (functions, types) is what lowering recorded",
                   f"`{' '.join(unparse(x).split())[:90]}` in {rel} changes the recorded interface after lowering: importers no longer see the functions / types the module defines "
